@@ -26,5 +26,6 @@ INVARIANT EvolvingBeforeAnyChange
 INVARIANT ExactlyOneTerminalSignal
 INVARIANT EvolvedIffSaved
 INVARIANT PairedUnlessFailed
+INVARIANT EndSignalsTruthful
 INVARIANT NoTerminalWithoutEvolving
 INVARIANT NoPartialAtRest
